@@ -52,8 +52,16 @@ fn install(vars: &[Option<String>]) {
 }
 
 fn reference(case: &Case) -> String {
-    let lookup = |name: &str| -> Option<String> { NAMES.iter().position(|n| *n == name).and_then(|i| case.vars[i].clone()) };
-    expand_ref(&case.path, &lookup)
+    expand_ref(&case.path, &|name: &str| lookup_var(case, name))
+}
+
+/// Pool variables are set/unset per case; any other name the token soup happens to form (the shell's
+/// `_`, say) is looked up in the real environment, which is what "a set environment variable" means.
+fn lookup_var(case: &Case, name: &str) -> Option<String> {
+    match NAMES.iter().position(|n| *n == name) {
+        Some(i) => case.vars[i].clone(),
+        None => std::env::var(name).ok(),
+    }
 }
 
 fn classify(case: &Case, obs: &mut Obs) {
@@ -82,7 +90,7 @@ pub fn check_bulk(case: &Case, obs: &mut Obs) -> CaseResult {
     if got != want {
         // signature: text produced by a substitution (or literal text next to one) substituted again
         let rescan = {
-            let lookup = |name: &str| -> Option<String> { NAMES.iter().position(|n| *n == name).and_then(|i| case.vars[i].clone()) };
+            let lookup = |name: &str| -> Option<String> { lookup_var(case, name) };
             let mut cur = case.path.clone();
             let mut hit = false;
             for _ in 0..6 {
@@ -176,8 +184,7 @@ pub fn check_e2e(tmp: &Path, case: &Case, obs: &mut Obs) -> CaseResult {
         }
         // the roller replaces every "{}" of its pattern by the index before expanding
         let want_file = if which == 2 {
-            let lookup = |name: &str| -> Option<String> { NAMES.iter().position(|n| *n == name).and_then(|i| case.vars[i].clone()) };
-            expand_ref(&format!("{}.{{}}", case.path).replace("{}", "0"), &lookup)
+            expand_ref(&format!("{}.{{}}", case.path).replace("{}", "0"), &|name: &str| lookup_var(case, name))
         } else {
             want_rel.clone()
         };
